@@ -27,7 +27,7 @@ var c10 = core.Register(&core.Prop{
 	Shards: func(tier string) int { return pickTier(tier, 8, 16) },
 	Floors: func(c map[string]int64, tier string) []string {
 		var out []string
-		for _, k := range []string{"analyses", "paths_expected", "refusals_expected", "callee_excluded", "locals_filtered", "sufficiency_pairs", "sufficiency_restricted_smaller", "in:typeof", "in:cond", "in:arr", "in:call", "in:pre", "in:paren", "in:bin", "repeated_mention_cases"} {
+		for _, k := range []string{"analyses", "paths_expected", "refusals_expected", "callee_excluded", "locals_filtered", "sufficiency_pairs", "sufficiency_restricted_smaller", "in:typeof", "in:cond", "in:arr", "in:call", "in:pre", "in:paren", "in:bin", "repeated_mention_cases", "computed_callee_cases"} {
 			if c[k] == 0 {
 				out = append(out, "coverage floor: no "+k)
 			}
@@ -131,6 +131,9 @@ func setOf(m map[string]bool) string {
 type FieldCase struct {
 	Src  string `json:"src"`
 	Data *val.V `json:"data,omitempty"`
+	// ErrClass: two failing evaluations count as the same result whatever their messages (computed callees: the
+	// pinned evaluator refuses them, at different points depending on what the callee expression finds)
+	ErrClass bool `json:"err_class,omitempty"`
 }
 
 var c10Fields = core.Mon(c10, "fields", func(w *core.W, c *FieldCase) {
@@ -249,6 +252,9 @@ var c10Fields = core.Mon(c10, "fields", func(w *core.W, c *FieldCase) {
 	}
 	full := evalTree(sc, *c.Data)
 	restr := evalTree(sc, restricted)
+	if c.ErrClass && strings.HasPrefix(full, "ERROR") && strings.HasPrefix(restr, "ERROR") {
+		return
+	}
 	if full != restr {
 		w.Violation("fields", "C10/not-sufficient", c, clipS(full, 300), clipS(restr, 300),
 			fmt.Sprintf("%s evaluates differently on the data restricted to the reported names %s plus callees %s", q, setOf(keep), setOf(m.Callees)))
@@ -282,6 +288,17 @@ func runC10(w *core.W) {
 		c10Fields(w, &FieldCase{Src: src, Data: &d})
 		if i%2503 == 0 {
 			w.Sample("sufficiency", fmt.Sprintf("%q", clipS(src, 120)))
+		}
+	}
+	// 1b. computed callees (a call result, a parenthesised or conditional expression, called): whatever the evaluator makes of
+	// them, the names read inside the callee expression are read - the restricted data must lead to the same outcome
+	data = StdData(r)
+	for ci, src := range []string{"fcurry(n0)(n1)", "fcurry(n0)(n1) + n1", "(b0 ? fid : fcurry)(n0)", "(fid)(n0)", "(z ?? fid)(s0)", "fcurry(m.k)(st.A)", "[fcurry(n0)(s0), n1]", "fid(fcurry(n0))(n1)", "(m.f)(n0)", "fcurry(fcurry(n0)(n1))(s0)",
+		"(0, fid)(n0)", "($v = fid)(n0)", "(b0 && fid)(n1)", "fcurry(n0)(n1)(s0)"} {
+		if w.Mine(ci) {
+			d := data
+			c10Fields(w, &FieldCase{Src: src, Data: &d, ErrClass: true})
+			w.Count("computed_callee_cases")
 		}
 	}
 	// 2. syntax-only formulas: every construct, any callee, member access on non-paths (refusal)
